@@ -340,6 +340,14 @@ struct Case {
     opt: OptV,
     layout: Layout,
     docs: Vec<DocD>,
+    /// also demand that every located issue of a string entry point is rendered with its snippet
+    /// (false: only the locations are checked; lets the search continue behind the open finding
+    /// about snippet regions without excluding every multi-violation case)
+    #[serde(default = "yes")]
+    strict: bool,
+}
+fn yes() -> bool {
+    true
 }
 
 // ------------------------------------------------------------------------------------------
@@ -1026,4 +1034,1126 @@ fn render(c: &Case) -> Rendered {
         docs.push(DocR { model, truths });
     }
     Rendered { text: w.out, docs }
+}
+
+// ------------------------------------------------------------------------------------------
+// observation channel: a recording Localizer (no source hooks)
+
+#[derive(Debug, Clone)]
+enum Evt {
+    Line(String, Option<Pos>),
+    Base(String),
+    Prefix(Option<Pos>),
+    Attach(Option<Pos>),
+    Anchor(Option<Pos>),
+}
+#[derive(Default)]
+struct Rec {
+    ev: RefCell<Vec<Evt>>,
+}
+fn lp(l: Location) -> Option<Pos> {
+    if l == Location::UNKNOWN { None } else { Some(Pos { line: l.line(), col: l.column() }) }
+}
+impl Localizer for Rec {
+    fn attach_location<'a>(&self, base: Cow<'a, str>, loc: Location) -> Cow<'a, str> {
+        self.ev.borrow_mut().push(Evt::Attach(lp(loc)));
+        if loc == Location::UNKNOWN { base } else { Cow::Owned(format!("{base} at line {}, column {}", loc.line(), loc.column())) }
+    }
+    fn validation_issue_line(&self, resolved_path: &str, entry: &str, loc: Option<Location>) -> String {
+        self.ev.borrow_mut().push(Evt::Line(resolved_path.to_string(), loc.and_then(lp)));
+        match loc {
+            Some(l) if l != Location::UNKNOWN => format!("validation error at {resolved_path}: {entry} at line {}, column {}", l.line(), l.column()),
+            _ => format!("validation error at {resolved_path}: {entry}"),
+        }
+    }
+    fn validation_base_message(&self, entry: &str, resolved_path: &str) -> String {
+        self.ev.borrow_mut().push(Evt::Base(resolved_path.to_string()));
+        format!("validation error: {entry} for `{resolved_path}`")
+    }
+    fn snippet_location_prefix(&self, loc: Location) -> String {
+        self.ev.borrow_mut().push(Evt::Prefix(lp(loc)));
+        if loc == Location::UNKNOWN { String::new() } else { format!("line {} column {}", loc.line(), loc.column()) }
+    }
+    fn value_comes_from_the_anchor(&self, def: Location) -> String {
+        self.ev.borrow_mut().push(Evt::Anchor(lp(def)));
+        format!("  | This value comes indirectly from the anchor at line {} column {}:", def.line(), def.column())
+    }
+}
+
+#[derive(Debug, Clone)]
+struct Iss {
+    path: String,
+    r: Option<Pos>,
+    d: Option<Pos>,
+    snip: bool,
+}
+
+fn observe(e: &Error, mode: SnippetMode) -> (Vec<Iss>, String) {
+    let rec = Rec::default();
+    let text = {
+        let fmt = serde_saphyr::DefaultMessageFormatter.with_localizer(&rec);
+        let mut ro = serde_saphyr::RenderOptions::new(&fmt);
+        ro.snippets = mode;
+        e.render_with_options(ro)
+    };
+    let mut out: Vec<Iss> = vec![];
+    let mut after_anchor = false;
+    for ev in rec.ev.into_inner() {
+        match ev {
+            Evt::Line(p, l) => out.push(Iss { path: p, r: l, d: None, snip: false }),
+            Evt::Base(p) => {
+                out.push(Iss { path: p, r: None, d: None, snip: false });
+                after_anchor = false;
+            }
+            Evt::Prefix(l) => {
+                if let Some(cur) = out.last_mut() {
+                    if cur.r.is_none() && !after_anchor {
+                        cur.r = l;
+                        cur.snip = true;
+                    }
+                }
+            }
+            Evt::Attach(l) => {
+                if let Some(cur) = out.last_mut() {
+                    if cur.r.is_none() && !after_anchor {
+                        cur.r = l;
+                    }
+                }
+            }
+            Evt::Anchor(l) => {
+                if let Some(cur) = out.last_mut() {
+                    cur.d = l;
+                    after_anchor = true;
+                }
+            }
+        }
+    }
+    (out, text)
+}
+
+// ------------------------------------------------------------------------------------------
+// the oracle
+
+fn short(e: &Error) -> String {
+    let s = format!("{:?}", e.without_snippet());
+    s.chars().take(160).collect()
+}
+
+struct DocCx<'a> {
+    c: &'a Case,
+    dr: &'a DocR,
+    expected: &'a BTreeSet<String>,
+    lines: &'a [&'a str],
+    snip_expected: bool,
+    doc: usize,
+}
+
+/// key (expected path, raw prefix stripped) -> truth; plus reported spelling -> key
+fn truth_index<'a>(dr: &'a DocR, k: Krate) -> (BTreeMap<String, &'a Truth>, BTreeMap<String, (String, bool)>) {
+    let mut by_key = BTreeMap::new();
+    let mut by_rep = BTreeMap::new();
+    for t in &dr.truths {
+        if t.garde_only && k == Krate::Validator {
+            continue;
+        }
+        let raw = match k {
+            Krate::Garde => &t.gpath,
+            Krate::Validator => &t.vpath,
+        };
+        let key = strip_raw(raw);
+        // unresolved spellings (Rust field name, with or without r#)
+        by_rep.insert(raw.clone(), (key.clone(), false));
+        by_rep.insert(key.clone(), (key.clone(), false));
+        // resolved spelling: the leaf as written in the YAML
+        if let Some(y) = &t.yleaf {
+            let cut = raw.len() - t.rust_leaf.len();
+            by_rep.insert(format!("{}{}", &raw[..cut], y), (key.clone(), true));
+        } else {
+            by_rep.insert(key.clone(), (key.clone(), true));
+        }
+        by_key.insert(key, t);
+    }
+    (by_key, by_rep)
+}
+
+fn check_doc_error(e: &Error, cx: &DocCx) -> Result<(), String> {
+    let k = cx.c.krate;
+    let di = cx.doc;
+    let inner = e.without_snippet();
+    let ok_variant = match k {
+        Krate::Garde => matches!(inner, Error::ValidationError { .. }),
+        Krate::Validator => matches!(inner, Error::ValidatorError { .. }),
+    };
+    if !ok_variant {
+        return Err(format!("doc {di}: expected a {:?} validation error, got {}", k, short(e)));
+    }
+    let wrapped = matches!(e, Error::WithSnippet { .. });
+    let (by_key, by_rep) = truth_index(cx.dr, k);
+    let (plain, plain_text) = observe(e, SnippetMode::Off);
+    if plain.is_empty() {
+        return Err(format!("doc {di}: validation error renders no issue at all: {plain_text:?}"));
+    }
+    // (2) the set of reported paths
+    let mut seen = BTreeSet::new();
+    let mut matched: Vec<(&Iss, &Truth, bool)> = vec![];
+    for is in &plain {
+        let Some((key, resolved)) = by_rep.get(&is.path) else {
+            return Err(format!("doc {di}: reported path `{}` is not a field path of the document (expected violations {:?})", is.path, cx.expected));
+        };
+        if !cx.expected.contains(key) {
+            return Err(format!("doc {di}: path `{}` reported but its constraint holds (expected violations {:?})", is.path, cx.expected));
+        }
+        seen.insert(key.clone());
+        matched.push((is, by_key[key], *resolved));
+    }
+    if &seen != cx.expected {
+        let missing: Vec<_> = cx.expected.difference(&seen).collect();
+        return Err(format!("doc {di}: violated fields not reported: {missing:?}"));
+    }
+    // per issue: location of the use site, YAML spelling
+    for (is, t, resolved) in &matched {
+        let must = !(t.amb || (k == Krate::Validator && t.map_key));
+        match is.r {
+            None => {
+                if must {
+                    return Err(format!("doc {di}: no location for `{}` ({:?}; ground truth {})", is.path, t.via, t.ref_ok[0]));
+                }
+            }
+            Some(p) => {
+                if !t.ref_ok.contains(&p) {
+                    return Err(format!("doc {di}: use-site of `{}` reported at {p}, ground truth {:?} ({:?})", is.path, t.ref_ok, t.via));
+                }
+                if !resolved {
+                    return Err(format!("doc {di}: located issue is named `{}` instead of the YAML spelling `{}`", is.path, t.yleaf.clone().unwrap_or_default()));
+                }
+            }
+        }
+        if !plain_text.contains(&format!("validation error at {}:", is.path)) {
+            return Err(format!("doc {di}: plain rendering does not name `{}`: {plain_text:?}", is.path));
+        }
+    }
+    // Error::location / Error::locations describe the first issue
+    let (first, ft, _) = &matched[0];
+    // "The error message will contain a snippet with exact location information" (rustdoc of the
+    // string entry points); the library attaches it when the error has a location
+    if cx.snip_expected && !wrapped && first.r.is_some() {
+        return Err(format!("string entry point with snippets enabled returned a located error without snippet (doc {di})"));
+    }
+    let fmust = !(ft.amb || (k == Krate::Validator && ft.map_key));
+    if let Some(p) = first.r {
+        if e.location().and_then(lp) != Some(p) {
+            return Err(format!("doc {di}: Error::location() = {:?} but the first issue is at {p}", e.location().and_then(lp)));
+        }
+        match e.locations() {
+            None => return Err(format!("doc {di}: Error::locations() is None although the first issue is located at {p}")),
+            Some(l) => {
+                if lp(l.reference_location) != Some(p) {
+                    return Err(format!("doc {di}: Error::locations().reference = {:?}, first issue at {p}", lp(l.reference_location)));
+                }
+                match lp(l.defined_location) {
+                    Some(d) if ft.def_ok.contains(&d) => {}
+                    other => {
+                        return Err(format!("doc {di}: Error::locations().defined = {other:?} for `{}`, ground truth {:?} ({:?})", first.path, ft.def_ok, ft.via));
+                    }
+                }
+            }
+        }
+    } else if fmust {
+        return Err(format!("doc {di}: first issue `{}` has no location", first.path));
+    }
+    // snippet rendering: use site and definition site per issue
+    let (snip, snip_text) = observe(e, SnippetMode::Auto);
+    if wrapped && cx.c.opt != OptV::Crop0 {
+        if snip.len() != plain.len() {
+            return Err(format!("doc {di}: snippet rendering shows {} issues, plain rendering {}", snip.len(), plain.len()));
+        }
+        for (s, (is, t, _)) in snip.iter().zip(matched.iter()) {
+            if s.path != is.path || s.r != is.r {
+                return Err(format!("doc {di}: snippet rendering disagrees with plain rendering: `{}` at {:?} vs `{}` at {:?}", s.path, s.r, is.path, is.r));
+            }
+            let Some(r) = s.r else { continue };
+            match s.d {
+                Some(d) => {
+                    if !t.def_ok.contains(&d) || d == r {
+                        return Err(format!("doc {di}: definition site of `{}` reported at {d}, ground truth {:?} (use site {r}, {:?})", s.path, t.def_ok, t.via));
+                    }
+                }
+                None => {
+                    if !t.def_ok.contains(&r) {
+                        return Err(format!("doc {di}: `{}` came through an anchor defined at {:?} but no definition site is reported (use site {r}, {:?})", s.path, t.def_ok, t.via));
+                    }
+                }
+            }
+            if !s.snip && cx.c.strict {
+                return Err(format!("no snippet is rendered for a located issue: doc {di} `{}` at {r}: {snip_text:?}", s.path));
+            }
+            if !snip_text.contains(&format!("`{}`", s.path)) {
+                return Err(format!("doc {di}: snippet rendering does not name `{}`", s.path));
+            }
+            if cx.c.opt == OptV::Default && s.snip {
+                if let Some(src) = cx.lines.get(r.line as usize - 1) {
+                    let src = src.trim_end();
+                    if src.chars().count() <= 60 && !snip_text.contains(&format!("{} | {}", r.line, src)) {
+                        return Err(format!("doc {di}: snippet for `{}` does not show source line {} ({src:?}): {snip_text:?}", s.path, r.line));
+                    }
+                }
+            }
+        }
+    } else if snip.len() != plain.len() {
+        return Err(format!("doc {di}: rendering with snippets shows {} issues, without {}", snip.len(), plain.len()));
+    }
+    // default formatter: Display and render() agree and name every issue
+    let disp = e.to_string();
+    if disp != e.render() {
+        return Err(format!("doc {di}: Display and render() differ"));
+    }
+    for (is, _, _) in &matched {
+        if !disp.contains(&is.path) {
+            return Err(format!("doc {di}: default rendering does not name `{}`: {disp:?}", is.path));
+        }
+    }
+    Ok(())
+}
+
+enum VRes {
+    Single(Result<Root, Error>),
+    Multi(Result<Vec<Root>, Error>),
+    Iter(Vec<Result<Root, Error>>),
+}
+
+fn call_plain(c: &Case, text: &str) -> Result<Vec<Root>, Error> {
+    let b = text.as_bytes();
+    match c.ep {
+        Ep::Str => serde_saphyr::from_str::<Root>(text).map(|v| vec![v]),
+        Ep::StrOpt => serde_saphyr::from_str_with_options::<Root>(text, c.opt.build()).map(|v| vec![v]),
+        Ep::Slice => serde_saphyr::from_slice::<Root>(b).map(|v| vec![v]),
+        Ep::Reader => serde_saphyr::from_reader::<_, Root>(std::io::Cursor::new(b)).map(|v| vec![v]),
+        Ep::Multiple => serde_saphyr::from_multiple::<Root>(text),
+        Ep::SliceMultipleOpt => serde_saphyr::from_slice_multiple_with_options::<Root>(b, c.opt.build()),
+        Ep::Read => {
+            let mut cur = std::io::Cursor::new(b);
+            serde_saphyr::read::<_, Root>(&mut cur).take(8).collect()
+        }
+    }
+}
+
+fn call_valid(c: &Case, text: &str) -> VRes {
+    let b = text.as_bytes();
+    match (c.krate, c.ep) {
+        (Krate::Garde, Ep::Str) => VRes::Single(serde_saphyr::from_str_valid(text)),
+        (Krate::Garde, Ep::StrOpt) => VRes::Single(serde_saphyr::from_str_with_options_valid(text, c.opt.build())),
+        (Krate::Garde, Ep::Slice) => VRes::Single(serde_saphyr::from_slice_valid(b)),
+        (Krate::Garde, Ep::Reader) => VRes::Single(serde_saphyr::from_reader_valid(std::io::Cursor::new(b))),
+        (Krate::Garde, Ep::Multiple) => VRes::Multi(serde_saphyr::from_multiple_valid(text)),
+        (Krate::Garde, Ep::SliceMultipleOpt) => VRes::Multi(serde_saphyr::from_slice_multiple_with_options_valid(b, c.opt.build())),
+        (Krate::Garde, Ep::Read) => {
+            let mut cur = std::io::Cursor::new(b);
+            VRes::Iter(serde_saphyr::read_valid::<_, Root>(&mut cur).take(8).collect())
+        }
+        (Krate::Validator, Ep::Str) => VRes::Single(serde_saphyr::from_str_validate(text)),
+        (Krate::Validator, Ep::StrOpt) => VRes::Single(serde_saphyr::from_str_with_options_validate(text, c.opt.build())),
+        (Krate::Validator, Ep::Slice) => VRes::Single(serde_saphyr::from_slice_validate(b)),
+        (Krate::Validator, Ep::Reader) => VRes::Single(serde_saphyr::from_reader_validate(std::io::Cursor::new(b))),
+        (Krate::Validator, Ep::Multiple) => VRes::Multi(serde_saphyr::from_multiple_validate(text)),
+        (Krate::Validator, Ep::SliceMultipleOpt) => VRes::Multi(serde_saphyr::from_slice_multiple_with_options_validate(b, c.opt.build())),
+        (Krate::Validator, Ep::Read) => {
+            let mut cur = std::io::Cursor::new(b);
+            VRes::Iter(serde_saphyr::read_validate::<_, Root>(&mut cur).take(8).collect())
+        }
+    }
+}
+
+enum Verdict {
+    Pass,
+    Fail(String),
+    Discard(&'static str),
+}
+
+fn check_case(c0: &Case) -> Verdict {
+    let c = norm(c0);
+    let r = render(&c);
+    let text = r.text.as_str();
+    let strict = std::env::var("C18_STRICT").is_ok();
+    // the plain entry point is the reference for (1) and for the constraint evaluation
+    let plain = match call_plain(&c, text) {
+        Ok(v) => v,
+        Err(e) => {
+            if strict {
+                return Verdict::Fail(format!("MODEL: plain entry point rejects the rendered text: {}", e.without_snippet()));
+            }
+            return Verdict::Discard("plain entry point rejects the rendered document");
+        }
+    };
+    if plain.len() != r.docs.len() || plain.iter().zip(&r.docs).any(|(p, d)| *p != d.model) {
+        if strict {
+            return Verdict::Fail(format!("MODEL: plain value differs from the model: {plain:?}"));
+        }
+        return Verdict::Discard("plain value differs from the model value");
+    }
+    let mut expected: Vec<BTreeSet<String>> = vec![];
+    for p in &plain {
+        let mine: BTreeSet<String> = violations(p, c.krate).iter().map(|s| strip_raw(s)).collect();
+        let theirs: BTreeSet<String> = crate_violations(p, c.krate).iter().map(|s| strip_raw(s)).collect();
+        if mine != theirs {
+            return Verdict::Fail(format!("HARNESS: constraint evaluator {mine:?} disagrees with the validation crate {theirs:?}"));
+        }
+        expected.push(mine);
+    }
+    let lines: Vec<&str> = text.split('\n').collect();
+    let snip_expected = !c.ep.reader() && c.opt.snippets();
+    let failing: Vec<usize> = (0..plain.len()).filter(|i| !expected[*i].is_empty()).collect();
+    let cx = |i: usize| DocCx { c: &c, dr: &r.docs[i], expected: &expected[i], lines: &lines, snip_expected, doc: i };
+    let res: Result<(), String> = (|| match call_valid(&c, text) {
+        VRes::Single(res) => match (res, failing.is_empty()) {
+            (Ok(v), true) => {
+                if v != plain[0] {
+                    return Err(format!("validation passes but the value differs from the plain entry point: {v:?} vs {:?}", plain[0]));
+                }
+                Ok(())
+            }
+            (Ok(_), false) => Err(format!("constraints {:?} are violated but the validating entry point returned Ok", expected[0])),
+            (Err(e), true) => Err(format!("no constraint is violated but the validating entry point failed: {}", short(&e))),
+            (Err(e), false) => check_doc_error(&e, &cx(0)),
+        },
+        VRes::Multi(res) => match (res, failing.is_empty()) {
+            (Ok(v), true) => {
+                if v != plain {
+                    return Err("validation passes but the values differ from the plain entry point".to_string());
+                }
+                Ok(())
+            }
+            (Ok(_), false) => Err(format!("documents {failing:?} violate constraints but the validating stream entry point returned Ok")),
+            (Err(e), true) => Err(format!("no constraint is violated but the validating stream entry point failed: {}", short(&e))),
+            (Err(e), false) => {
+                let errors = match (c.krate, e.without_snippet()) {
+                    (Krate::Garde, Error::ValidationErrors { errors }) => errors,
+                    (Krate::Validator, Error::ValidatorErrors { errors }) => errors,
+                    _ => return Err(format!("stream entry point: expected the aggregate validation error, got {}", short(&e))),
+                };
+                if errors.len() != failing.len() {
+                    return Err(format!("stream entry point reports {} failing documents, {} documents violate constraints ({failing:?})", errors.len(), failing.len()));
+                }
+                for (ne, i) in errors.iter().zip(&failing) {
+                    check_doc_error(ne, &cx(*i))?;
+                }
+                // the aggregate renders every nested issue, in both modes
+                let total: usize = failing.iter().map(|i| expected[*i].len()).sum();
+                for mode in [SnippetMode::Off, SnippetMode::Auto] {
+                    let (iss, txt) = observe(&e, mode);
+                    if iss.len() != total {
+                        return Err(format!("aggregate error renders {} issues, expected {total}: {txt:?}", iss.len()));
+                    }
+                    if !txt.contains(&format!("validation failed for {} document(s)", failing.len())) {
+                        return Err(format!("aggregate error does not state the number of failing documents: {txt:?}"));
+                    }
+                }
+                let _ = e.to_string();
+                Ok(())
+            }
+        },
+        VRes::Iter(items) => {
+            if items.len() != plain.len() {
+                return Err(format!("validating iterator yields {} items for {} documents", items.len(), plain.len()));
+            }
+            for (i, it) in items.into_iter().enumerate() {
+                match (it, expected[i].is_empty()) {
+                    (Ok(v), true) => {
+                        if v != plain[i] {
+                            return Err(format!("doc {i}: validation passes but the value differs from the plain iterator"));
+                        }
+                    }
+                    (Ok(_), false) => return Err(format!("doc {i}: constraints {:?} are violated but the iterator yielded Ok", expected[i])),
+                    (Err(e), true) => return Err(format!("doc {i}: no constraint is violated but the iterator yielded {}", short(&e))),
+                    (Err(e), false) => check_doc_error(&e, &cx(i))?,
+                }
+            }
+            Ok(())
+        }
+    })();
+    match res {
+        Ok(()) => Verdict::Pass,
+        Err(m) => Verdict::Fail(m),
+    }
+}
+
+// ------------------------------------------------------------------------------------------
+// leaves of a document description (fixed visiting order)
+
+enum LeafMut<'a> {
+    S(&'a mut SLeaf, (usize, usize), bool),
+    N(&'a mut NLeaf, (i64, i64)),
+}
+fn item_leaves<'a>(it: &'a mut ItemD, f: &mut dyn FnMut(LeafMut<'a>)) {
+    f(LeafMut::S(&mut it.label, LABEL, false));
+    f(LeafMut::N(&mut it.weight, WEIGHT));
+    for t in it.tags.iter_mut() {
+        f(LeafMut::S(t, TAG, true));
+    }
+}
+fn doc_leaves<'a>(d: &'a mut DocD, f: &mut dyn FnMut(LeafMut<'a>)) {
+    f(LeafMut::S(&mut d.short_name, SHORT_NAME, false));
+    f(LeafMut::N(&mut d.max_count, MAX_COUNT));
+    f(LeafMut::S(&mut d.ty, TYPE_, false));
+    f(LeafMut::N(&mut d.ab_c, AB_C));
+    f(LeafMut::N(&mut d.a_bc, A_BC));
+    f(LeafMut::S(&mut d.net.host_name, HOST_NAME, false));
+    f(LeafMut::N(&mut d.net.port_no, PORT_NO));
+    for it in d.net.back_ups.iter_mut() {
+        item_leaves(it, f);
+    }
+    for it in d.items.iter_mut() {
+        item_leaves(it, f);
+    }
+    for (_, it) in d.by_name.iter_mut() {
+        item_leaves(it, f);
+    }
+}
+fn n_leaves(d: &DocD) -> usize {
+    let mut d = d.clone();
+    let mut n = 0;
+    doc_leaves(&mut d, &mut |_| n += 1);
+    n
+}
+fn bad_s(c: (usize, usize)) -> String {
+    "abcdefghijklmnop".chars().take(c.1 + 1).collect()
+}
+fn bad_n(c: (i64, i64)) -> i64 {
+    if c.1 < i64::MAX { c.1 + 1 } else { c.0 - 1 }
+}
+/// make leaf `idx` violate its constraint, supplied as `how`
+fn violate(d: &mut DocD, idx: usize, how: &How) {
+    let mut i = 0;
+    doc_leaves(d, &mut |l| {
+        if i == idx {
+            match l {
+                LeafMut::S(s, c, tag) => {
+                    s.v = bad_s(c);
+                    s.how = if tag { norm_tag_how(how) } else { how.clone() };
+                }
+                LeafMut::N(n, c) => {
+                    n.v = bad_n(c);
+                    n.how = how.clone();
+                }
+            }
+        }
+        i += 1;
+    });
+}
+
+fn sl(v: &str) -> SLeaf {
+    SLeaf { v: v.to_string(), sty: 0, how: How::Direct, cmt: false }
+}
+fn nlf(v: i64) -> NLeaf {
+    NLeaf { v, how: How::Direct, cmt: false }
+}
+fn base_item(label: &str, weight: i64, tags: &[&str]) -> ItemD {
+    ItemD { label: sl(label), weight: nlf(weight), tags: tags.iter().map(|t| sl(t)).collect(), flow: false, tags_flow: false, whole: false, merge_at: 0 }
+}
+fn base_doc() -> DocD {
+    DocD {
+        short_name: sl("name"),
+        max_count: nlf(5),
+        ty: sl("t1"),
+        ab_c: nlf(3),
+        a_bc: nlf(4),
+        net: NetD { host_name: sl("host"), port_no: nlf(8080), back_ups: vec![base_item("bk", 1, &["x"])], flow: false, seq_flow: false, merge_at: 0 },
+        items: vec![base_item("one", 1, &["a", "b"]), base_item("two", 2, &[])],
+        items_flow: false,
+        by_name: vec![("k1".to_string(), base_item("m1", 3, &[])), ("alpha".to_string(), base_item("m2", 4, &["t"]))],
+        map_flow: false,
+        defs_flow: false,
+        merge_at: 0,
+        rot: 0,
+        start_marker: false,
+        end_marker: false,
+        lead: 0,
+    }
+}
+fn base_layout() -> Layout {
+    Layout { crlf: false, step: 2, seq_indent: true, cmt_every: 0, blank: false }
+}
+
+// ------------------------------------------------------------------------------------------
+// evidence: what a case exercises
+
+#[derive(Default, Debug)]
+struct Feat {
+    viol: usize,
+    alias: usize,
+    merge: usize,
+    whole: usize,
+    over: usize,
+    renamed: usize,
+    seq_idx: usize,
+    map_key: usize,
+    amb: usize,
+    amb_na: usize,
+    failing_docs: usize,
+    docs: usize,
+    leaves: usize,
+}
+fn features(c0: &Case) -> Feat {
+    let c = norm(c0);
+    let r = render(&c);
+    let mut f = Feat { docs: r.docs.len(), ..Default::default() };
+    for d in &r.docs {
+        let v: BTreeSet<String> = violations(&d.model, c.krate).iter().map(|s| strip_raw(s)).collect();
+        if !v.is_empty() {
+            f.failing_docs += 1;
+        }
+        f.leaves += d.truths.len();
+        for t in &d.truths {
+            if t.garde_only && c.krate == Krate::Validator {
+                continue;
+            }
+            let key = strip_raw(if c.krate == Krate::Garde { &t.gpath } else { &t.vpath });
+            if !v.contains(&key) {
+                continue;
+            }
+            f.viol += 1;
+            match t.via {
+                Via::Alias => f.alias += 1,
+                Via::Merge => f.merge += 1,
+                Via::Whole => f.whole += 1,
+                Via::Direct => {}
+            }
+            f.over += t.over as usize;
+            f.renamed += t.renamed as usize;
+            f.seq_idx += t.seq_idx as usize;
+            f.map_key += t.map_key as usize;
+            f.amb += t.amb as usize;
+            f.amb_na += t.amb_na as usize;
+        }
+    }
+    f
+}
+#[allow(dead_code)]
+fn nontrivial(c: &Case) -> bool {
+    let f = features(c);
+    f.alias + f.merge + f.whole + f.renamed + f.seq_idx > 0
+}
+
+// ------------------------------------------------------------------------------------------
+// generators
+
+const STRS: [&str; 22] = [
+    "", "a", "é", "日", "ok", "日本", "x1", "abc", "x y", "123", "abcd", "déjà", "abcde", "😀😀😀😀😀", "abcdef", "abcdefg", "日本語日本語日", "abcdefghi",
+    "abcdefghij", "ключ-значение", "No", "a-b_c",
+];
+const INTS: [i64; 18] = [-100000, -4, -3, -1, 0, 1, 5, 9, 10, 11, 80, 100, 101, 8080, 65535, 65536, 100000, 4000000000];
+const KEYS: [&str; 20] = [
+    "k1", "k2", "alpha", "Alpha", "a_b", "a-b", "aB", "ab", "label", "0", "ключ", "日本", "x y", "items", "weight", "shortName", "é1", "É1", "ALPHA", "k-1",
+];
+
+fn how_s() -> impl Strategy<Value = How> {
+    prop_oneof![
+        6 => Just(How::Direct),
+        1 => Just(How::Anchored),
+        3 => Just(How::Alias),
+        2 => Just(How::Merge),
+        1 => Just(How::MergeOver),
+        1 => Just(How::MergeAlias),
+    ]
+}
+fn sleaf_s(c: (usize, usize), pbad: u32) -> impl Strategy<Value = SLeaf> {
+    (0u32..100, any::<u16>(), 0u8..3, how_s(), prop::bool::weighted(0.15)).prop_map(move |(roll, idx, sty, how, cmt)| {
+        let want_bad = roll >= 100 - pbad;
+        let list: Vec<&str> = STRS.iter().copied().filter(|s| sbad(s, c) == want_bad).collect();
+        let v = if list.is_empty() { "ok".to_string() } else { list[idx as usize % list.len()].to_string() };
+        SLeaf { v, sty, how, cmt }
+    })
+}
+fn nleaf_s(c: (i64, i64), pbad: u32) -> impl Strategy<Value = NLeaf> {
+    (0u32..100, any::<u16>(), how_s(), prop::bool::weighted(0.15)).prop_map(move |(roll, idx, how, cmt)| {
+        let want_bad = roll >= 100 - pbad;
+        let list: Vec<i64> = INTS.iter().copied().filter(|v| nbad(*v, c) == want_bad).collect();
+        let v = if list.is_empty() { 5 } else { list[idx as usize % list.len()] };
+        NLeaf { v, how, cmt }
+    })
+}
+fn item_s(pbad: u32) -> impl Strategy<Value = ItemD> {
+    (
+        sleaf_s(LABEL, pbad),
+        nleaf_s(WEIGHT, pbad),
+        prop::collection::vec(sleaf_s(TAG, pbad), 0..3),
+        prop::bool::weighted(0.3),
+        any::<bool>(),
+        prop::bool::weighted(0.15),
+        0u8..4,
+    )
+        .prop_map(|(label, weight, tags, flow, tags_flow, whole, merge_at)| ItemD { label, weight, tags, flow, tags_flow, whole, merge_at })
+}
+fn doc_s(pbad: u32, keys: &'static [&'static str]) -> impl Strategy<Value = DocD> {
+    let net = (sleaf_s(HOST_NAME, pbad), nleaf_s(PORT_NO, pbad), prop::collection::vec(item_s(pbad), 0..3), prop::bool::weighted(0.25), any::<bool>(), 0u8..4)
+        .prop_map(|(host_name, port_no, back_ups, flow, seq_flow, merge_at)| NetD { host_name, port_no, back_ups, flow, seq_flow, merge_at });
+    let leaves = (sleaf_s(SHORT_NAME, pbad), nleaf_s(MAX_COUNT, pbad), sleaf_s(TYPE_, pbad), nleaf_s(AB_C, pbad), nleaf_s(A_BC, pbad));
+    let conts = (
+        net,
+        prop::collection::vec(item_s(pbad), 0..4),
+        prop::collection::vec((prop::sample::select(keys), item_s(pbad)), 0..4),
+    );
+    let flags = (prop::bool::weighted(0.25), prop::bool::weighted(0.25), prop::bool::weighted(0.3), 0u8..6, 0u8..8, any::<bool>(), prop::bool::weighted(0.3), 0u8..3);
+    (leaves, conts, flags).prop_map(|((short_name, max_count, ty, ab_c, a_bc), (net, items, by_name), (items_flow, map_flow, defs_flow, merge_at, rot, start_marker, end_marker, lead))| DocD {
+        short_name,
+        max_count,
+        ty,
+        ab_c,
+        a_bc,
+        net,
+        items,
+        items_flow,
+        by_name: by_name.into_iter().map(|(k, v)| (k.to_string(), v)).collect(),
+        map_flow,
+        defs_flow,
+        merge_at,
+        rot,
+        start_marker,
+        end_marker,
+        lead,
+    })
+}
+fn layout_s() -> impl Strategy<Value = Layout> {
+    (prop::bool::weighted(0.3), prop::sample::select(vec![2u8, 4]), any::<bool>(), prop::sample::select(vec![0u8, 0, 2, 3, 5]), prop::bool::weighted(0.2))
+        .prop_map(|(crlf, step, seq_indent, cmt_every, blank)| Layout { crlf, step, seq_indent, cmt_every, blank })
+}
+fn case_s(eps: Vec<Ep>, keys: &'static [&'static str], rates: Vec<u32>) -> impl Strategy<Value = Case> {
+    (
+        prop::sample::select(vec![Krate::Garde, Krate::Validator]),
+        prop::sample::select(eps),
+        prop::sample::select(vec![OptV::Default, OptV::Default, OptV::NoSnippet, OptV::Crop8, OptV::Crop0]),
+        layout_s(),
+        prop::sample::select(rates),
+        any::<bool>(),
+    )
+        .prop_flat_map(move |(krate, ep, opt, layout, pbad, strict)| {
+            let n = if ep.stream() { 4 } else { 1 };
+            // in a stream some documents pass and some fail
+            let doc = prop_oneof![3 => doc_s(pbad, keys), 1 => doc_s(0, keys)];
+            prop::collection::vec(doc, 1..=n).prop_map(move |docs| Case { krate, ep, opt, layout: layout.clone(), docs, strict })
+        })
+}
+
+struct C18;
+
+const COLLIDE_KEYS: [&str; 12] = ["alpha", "Alpha", "ALPHA", "a_b", "a-b", "aB", "ab", "ключ", "日本", "é1", "É1", "k1"];
+
+fn count_classes(m: &RefCell<BTreeMap<String, u64>>, c: &Case) -> bool {
+    let f = features(c);
+    let mut m = m.borrow_mut();
+    let mut add = |k: &str, n: usize| {
+        if n > 0 {
+            *m.entry(k.to_string()).or_insert(0) += 1;
+        }
+    };
+    add("case: no violation", (f.viol == 0) as usize);
+    add("case: every leaf violated", (f.viol == f.leaves && f.viol > 0) as usize);
+    add("case: >=1 violation through a scalar alias", f.alias);
+    add("case: >=1 violation through a merge", f.merge);
+    add("case: >=1 violation inside a mapping used through an alias", f.whole);
+    add("case: >=1 violated field overriding a merged value", f.over);
+    add("case: >=1 violation at/under a renamed field", f.renamed);
+    add("case: >=1 violation under a sequence index", f.seq_idx);
+    add("case: >=1 violation under a map key", f.map_key);
+    add("case: >=1 violation under a map key with a documented-ambiguous sibling", f.amb);
+    add("case: stream with >=2 failing documents", (f.failing_docs >= 2) as usize);
+    add("case: stream with failing and passing documents", (f.failing_docs >= 1 && f.failing_docs < f.docs) as usize);
+    add(&format!("entry point {:?}/{:?}", c.ep, c.krate), 1);
+    add(&format!("documents per case: {}", f.docs), 1);
+    add("layout: CRLF", c.layout.crlf as usize);
+    f.alias + f.merge + f.whole + f.renamed + f.seq_idx > 0
+}
+
+impl Property for C18 {
+    const ID: &'static str = "C18";
+    type Case = Case;
+    fn rule() -> String {
+        "cases = (validation crate, entry point, options for the *_with_options_* entry points, layout, 1 document or a stream of 1-4 documents); a document is a description of a value of the fixed type family Root{camelCase: shortName, maxCount, type (raw identifier), abC, aBc, netCfg: Net{kebab-case: host-name, port-no, back-ups: [Item]}, items: [Item], byName: BTreeMap<String, Item>}, Item{label, weight, tags: [String]} giving for every leaf its value (satisfying or violating its length/range constraint) and how it is supplied (directly, directly with an anchor, alias to a scalar anchored in a pool, through `<<: *base`, overriding a merged value, through a merge whose base entry is an alias), whether an Item is used through an alias to a whole anchored mapping, block/flow style per container, comments with multi-byte text, CRLF, indentation, document markers. The harness renders the YAML and records the line/column of every value token. Oracle: see report-C18.md (result == plain entry point when nothing is violated; otherwise the reported path set == violated constraints evaluated on the plain value, use site and definition site of every issue == ground truth, observed through a recording Localizer in plain and snippet rendering and through Error::location()/locations(); every failing document of a stream is reported). Non-trivial: >= 1 violated constraint reached through an alias, a merge, a renamed field (or below one) or a sequence index. distinct = distinct case descriptions.".into()
+    }
+    fn assumptions() -> Vec<String> {
+        vec![
+            "for a value that arrives through a merge or inside a mapping used through an alias the documentation does not fix the use site: the alias token, an alias inside the base and the original scalar are all accepted; the definition site must be the original scalar".into(),
+            "validator reports entries of a map by iteration index, which cannot be related to a YAML position: no location is required there (if one is given it must be right)".into(),
+            "map keys that differ only in case / separators below a renamed field are documented as ambiguous by path_map.rs: no location is required (if one is given it must be right)".into(),
+            "the empty string is only written directly (an anchored empty quoted scalar is a known C02 finding)".into(),
+            "documents always end with a line break and no line starts with `%` (known reader hang, C01)".into(),
+            "reader entry points carry no snippet: the definition site is only observable for the first issue (Error::locations())".into(),
+        ]
+    }
+    fn check(c: &Case) -> Outcome {
+        match check_case(c) {
+            Verdict::Pass => Outcome::Pass,
+            Verdict::Fail(m) => Outcome::Fail(m),
+            Verdict::Discard(w) => Outcome::Discard(w),
+        }
+    }
+    fn signatures(c: &Case) -> Vec<&'static str> {
+        signatures_of(c)
+    }
+    fn shrink(c: &Case) -> Vec<Case> {
+        shrink_case(c)
+    }
+    fn selfcheck() -> Result<(), String> {
+        // the harness' evaluator and the two crates agree on a document that violates everything
+        let mut d = base_doc();
+        for i in 0..n_leaves(&d) {
+            violate(&mut d, i, &How::Direct);
+        }
+        let c = Case { krate: Krate::Garde, ep: Ep::Str, opt: OptV::Default, layout: base_layout(), docs: vec![d], strict: true };
+        let r = render(&c);
+        for k in [Krate::Garde, Krate::Validator] {
+            let a: BTreeSet<String> = violations(&r.docs[0].model, k).iter().map(|s| strip_raw(s)).collect();
+            let b: BTreeSet<String> = crate_violations(&r.docs[0].model, k).iter().map(|s| strip_raw(s)).collect();
+            if a != b || a.is_empty() {
+                return Err(format!("{k:?}: evaluator {a:?} vs crate {b:?}"));
+            }
+        }
+        let back: Root = serde_saphyr::from_str(&r.text).map_err(|e| format!("base document does not parse: {e}"))?;
+        if back != r.docs[0].model {
+            return Err("base document does not read back as its model".into());
+        }
+        Ok(())
+    }
+    fn generate(ctx: &mut Ctx<Self>) {
+        let classes: RefCell<BTreeMap<String, u64>> = RefCell::new(BTreeMap::new());
+        // --- enumerated: one violated leaf of a fixed document x supply x entry point x crate x style
+        let base = base_doc();
+        let nl = n_leaves(&base);
+        let hows = [How::Direct, How::Anchored, How::Alias, How::Merge, How::MergeOver, How::MergeAlias];
+        let mut idx = 0u64;
+        for leaf in 0..nl {
+            for how in &hows {
+                for ep in EPS {
+                    for krate in [Krate::Garde, Krate::Validator] {
+                        for style in 0..3u8 {
+                            idx += 1;
+                            if !ctx.mine(idx) {
+                                continue;
+                            }
+                            let mut d = base.clone();
+                            violate(&mut d, leaf, how);
+                            match style {
+                                1 => {
+                                    d.items_flow = true;
+                                    d.map_flow = true;
+                                    d.net.flow = true;
+                                    d.defs_flow = true;
+                                }
+                                2 => {
+                                    d.items[0].whole = true;
+                                    d.by_name[1].1.whole = true;
+                                    d.net.back_ups[0].whole = true;
+                                    d.rot = 3;
+                                }
+                                _ => {}
+                            }
+                            let mut docs = vec![d];
+                            if ep.stream() {
+                                // a passing document before and a second failing one after
+                                let mut d2 = base.clone();
+                                violate(&mut d2, (leaf + 7) % nl, how);
+                                docs.insert(0, base.clone());
+                                docs.push(d2);
+                            }
+                            let mut layout = base_layout();
+                            layout.crlf = leaf % 2 == 1;
+                            layout.cmt_every = (style * 2) % 5;
+                            let c = Case { krate, ep, opt: OptV::Default, layout, docs, strict: true };
+                            let nt = count_classes(&classes, &c);
+                            ctx.case("one-violated-leaf", &c, nt);
+                        }
+                    }
+                }
+            }
+        }
+        ctx.subspace("fixed document: violated leaf x supply x entry point x crate x 3 styles", idx, true);
+        // --- enumerated: pairs of violated leaves
+        let mut idx = 0u64;
+        for a in 0..nl {
+            for b in (a + 1)..nl {
+                idx += 1;
+                if !ctx.mine(idx) {
+                    continue;
+                }
+                let mut d = base.clone();
+                violate(&mut d, a, &hows[(a + b) % 6]);
+                violate(&mut d, b, &hows[(a * 3 + b) % 6]);
+                d.rot = (a % 8) as u8;
+                let ep = EPS[(a + 2 * b) % 7];
+                let krate = if (a + b) % 2 == 0 { Krate::Garde } else { Krate::Validator };
+                let docs = if ep.stream() { vec![d.clone(), base.clone(), d] } else { vec![d] };
+                let c = Case { krate, ep, opt: OptV::Default, layout: base_layout(), docs, strict: true };
+                let nt = count_classes(&classes, &c);
+                ctx.case("two-violated-leaves", &c, nt);
+                if !signatures_of(&c).is_empty() {
+                    // behind an open finding: everything except the snippet-presence demand
+                    let c = Case { strict: false, ..c };
+                    ctx.case("two-violated-leaves", &c, nt);
+                }
+            }
+        }
+        ctx.subspace("fixed document: pairs of violated leaves (rotating supply / entry point / crate)", idx, true);
+        // --- random documents
+        let singles = vec![Ep::Str, Ep::StrOpt, Ep::Slice, Ep::Reader];
+        let streams = vec![Ep::Multiple, Ep::SliceMultipleOpt, Ep::Read];
+        let keys: &'static [&'static str] = &KEYS;
+        let nt = |c: &Case| count_classes(&classes, c);
+        ctx.run_strategy("random-single", 1, ctx.tier.pick(9_000, 150_000), &case_s(singles, keys, vec![0, 6, 6, 20, 20, 100]), nt);
+        ctx.run_strategy("random-stream", 2, ctx.tier.pick(5_000, 80_000), &case_s(streams, keys, vec![0, 6, 20, 20, 50, 100]), nt);
+        let coll: &'static [&'static str] = &COLLIDE_KEYS;
+        ctx.run_strategy("random-colliding-keys", 3, ctx.tier.pick(3_000, 50_000), &case_s(EPS.to_vec(), coll, vec![30, 60, 100]), nt);
+        for (k, v) in classes.into_inner() {
+            ctx.class_n(&k, v);
+        }
+    }
+}
+
+fn signatures_of(c0: &Case) -> Vec<&'static str> {
+    let c = norm(c0);
+    let mut out = vec![];
+    // open finding "snippet region off by one": a cropped region claims to cover the (phantom)
+    // line after its last line break, so an issue exactly 3 lines below another issue's use or
+    // definition site is rendered from the wrong region and loses its snippet. Only string entry
+    // points with snippets; the order of the issues is not known for validator, hence any pair.
+    let r = render(&c);
+    // open finding "non-ASCII map keys": the tokenised / collapsed comparison of path_map.rs drops
+    // every non-ASCII character, so two sibling keys that differ only in such characters make the
+    // lookup ambiguous (below a renamed field, where the exact lookup does not apply)
+    if c.krate == Krate::Garde {
+        for d in &r.docs {
+            let v: BTreeSet<String> = violations(&d.model, c.krate).iter().map(|s| strip_raw(s)).collect();
+            if d.truths.iter().any(|t| t.amb_na && v.contains(&strip_raw(&t.gpath))) {
+                out.push("nonascii_map_keys");
+                break;
+            }
+        }
+    }
+    if c.strict && !c.ep.reader() && c.opt.snippets() {
+        'docs: for d in &r.docs {
+            let v: BTreeSet<String> = violations(&d.model, c.krate).iter().map(|s| strip_raw(s)).collect();
+            let bad: Vec<&Truth> = d
+                .truths
+                .iter()
+                .filter(|t| !(t.garde_only && c.krate == Krate::Validator))
+                .filter(|t| v.contains(&strip_raw(if c.krate == Krate::Garde { &t.gpath } else { &t.vpath })))
+                .collect();
+            for (i, a) in bad.iter().enumerate() {
+                for (j, b) in bad.iter().enumerate() {
+                    if i == j {
+                        continue;
+                    }
+                    let ap = a.ref_ok.iter().chain(a.def_ok.iter());
+                    for p in ap {
+                        if b.ref_ok.iter().chain(b.def_ok.iter()).any(|q| q.line == p.line + 3) {
+                            out.push("snippet_region_off_by_one");
+                            break 'docs;
+                        }
+                    }
+                }
+            }
+        }
+    }
+    out
+}
+
+fn shrink_case(c0: &Case) -> Vec<Case> {
+    let c = norm(c0);
+    let mut out: Vec<Case> = vec![];
+    let mut push = |x: Case| {
+        if x != c {
+            out.push(x);
+        }
+    };
+    // fewer documents
+    if c.docs.len() > 1 {
+        for i in 0..c.docs.len() {
+            let mut x = c.clone();
+            x.docs.remove(i);
+            push(x);
+        }
+    }
+    // simpler frame
+    let mut x = c.clone();
+    x.layout = base_layout();
+    push(x);
+    if c.opt != OptV::Default {
+        let mut x = c.clone();
+        x.opt = OptV::Default;
+        push(x);
+    }
+    for di in 0..c.docs.len() {
+        let d = &c.docs[di];
+        for i in 0..d.items.len() {
+            let mut x = c.clone();
+            x.docs[di].items.remove(i);
+            push(x);
+        }
+        for i in 0..d.by_name.len() {
+            let mut x = c.clone();
+            x.docs[di].by_name.remove(i);
+            push(x);
+        }
+        for i in 0..d.net.back_ups.len() {
+            let mut x = c.clone();
+            x.docs[di].net.back_ups.remove(i);
+            push(x);
+        }
+        // drop tags, un-alias whole items, block style
+        let mut x = c.clone();
+        {
+            let d = &mut x.docs[di];
+            for it in d.items.iter_mut().chain(d.net.back_ups.iter_mut()).chain(d.by_name.iter_mut().map(|(_, v)| v)) {
+                it.tags.clear();
+            }
+        }
+        push(x);
+        let mut x = c.clone();
+        {
+            let d = &mut x.docs[di];
+            for it in d.items.iter_mut().chain(d.net.back_ups.iter_mut()).chain(d.by_name.iter_mut().map(|(_, v)| v)) {
+                it.whole = false;
+                it.flow = false;
+                it.tags_flow = false;
+                it.merge_at = 0;
+            }
+            d.items_flow = false;
+            d.map_flow = false;
+            d.defs_flow = false;
+            d.net.flow = false;
+            d.net.seq_flow = false;
+            d.net.merge_at = 0;
+            d.merge_at = 0;
+            d.rot = 0;
+            d.start_marker = false;
+            d.end_marker = false;
+            d.lead = 0;
+        }
+        push(x);
+        // leaves: supplied directly / satisfying value
+        let n = n_leaves(d);
+        for li in 0..n {
+            for what in 0..3 {
+                let mut x = c.clone();
+                let mut i = 0;
+                doc_leaves(&mut x.docs[di], &mut |l| {
+                    if i == li {
+                        match l {
+                            LeafMut::S(s, cons, _) => match what {
+                                0 => {
+                                    s.v = if sbad("ok", cons) { "a".into() } else { "ok".into() };
+                                }
+                                1 => s.how = How::Direct,
+                                _ => {
+                                    s.sty = 0;
+                                    s.cmt = false;
+                                }
+                            },
+                            LeafMut::N(nn, cons) => match what {
+                                0 => nn.v = if nbad(5, cons) { 1 } else { 5 },
+                                1 => nn.how = How::Direct,
+                                _ => nn.cmt = false,
+                            },
+                        }
+                    }
+                    i += 1;
+                });
+                push(x);
+            }
+        }
+    }
+    out
+}
+
+fn show(path: &str) {
+    let s = std::fs::read_to_string(path).expect("read");
+    let v: serde_json::Value = serde_json::from_str(&s).expect("json");
+    let c: Case = serde_json::from_value(v["case"].clone()).expect("case");
+    let c = norm(&c);
+    let r = render(&c);
+    println!("{:?} {:?} {:?}", c.krate, c.ep, c.opt);
+    for (i, l) in r.text.split('\n').enumerate() {
+        println!("{:3} | {}", i + 1, l.trim_end_matches('\r'));
+    }
+    for (i, d) in r.docs.iter().enumerate() {
+        let v: BTreeSet<String> = violations(&d.model, c.krate).iter().map(|s| strip_raw(s)).collect();
+        println!("doc {i}: expected violations {v:?}");
+        for t in &d.truths {
+            let key = strip_raw(if c.krate == Krate::Garde { &t.gpath } else { &t.vpath });
+            if v.contains(&key) {
+                println!("   {key}: use {:?} def {:?} {:?} amb={} amb_na={}", t.ref_ok, t.def_ok, t.via, t.amb, t.amb_na);
+            }
+        }
+    }
+    match call_valid(&c, &r.text) {
+        VRes::Single(Err(e)) | VRes::Multi(Err(e)) => {
+            println!("--- plain rendering\n{}", e.render_with_options({
+                let mut o = serde_saphyr::RenderOptions::default();
+                o.snippets = SnippetMode::Off;
+                o
+            }));
+            println!("--- default rendering\n{e}");
+        }
+        VRes::Iter(items) => {
+            for (i, it) in items.iter().enumerate() {
+                if let Err(e) = it {
+                    println!("--- item {i}\n{e}");
+                }
+            }
+        }
+        _ => println!("validating entry point returned Ok"),
+    }
+    if let VRes::Single(Err(e)) = call_valid(&c, &r.text) {
+        println!("observed (snippet mode): {:?}", observe(&e, SnippetMode::Auto).0);
+        println!("locations(): {:?}", e.locations().map(|l| (lp(l.reference_location), lp(l.defined_location))));
+    }
+    match check_case(&c) {
+        Verdict::Pass => println!("VERDICT: pass"),
+        Verdict::Fail(m) => println!("VERDICT: FAIL {m}"),
+        Verdict::Discard(w) => println!("VERDICT: discard ({w})"),
+    }
+}
+
+/// hand-made cases (witnesses of findings); `c18 mkcase <name>` prints the replay-file JSON
+fn named_case(name: &str) -> Option<Case> {
+    let mut d = base_doc();
+    d.items.clear();
+    d.by_name.clear();
+    d.net.back_ups.clear();
+    let mut c = Case { krate: Krate::Garde, ep: Ep::Str, opt: OptV::Default, layout: base_layout(), docs: vec![], strict: true };
+    match name {
+        "snippet_region_off_by_one" => {
+            // port-no on line 4 (reported first) and type on line 7
+            d.net.port_no.v = 0;
+            d.ty.v = "toolong".into();
+        }
+        "nonascii_keys" => {
+            d.by_name = vec![("ключ".to_string(), base_item("toolong", 1, &[])), ("日本".to_string(), base_item("ok", 1, &[]))];
+        }
+        "merge" => {
+            d.net.port_no = NLeaf { v: 0, how: How::Merge, cmt: false };
+            d.short_name = SLeaf { v: "x".into(), sty: 0, how: How::MergeAlias, cmt: false };
+        }
+        "whole" => {
+            d.items = vec![base_item("toolong", 1, &["abcd"])];
+            d.items[0].whole = true;
+            d.items[0].weight = NLeaf { v: 11, how: How::Merge, cmt: false };
+        }
+        _ => return None,
+    }
+    c.docs.push(d);
+    Some(c)
+}
+
+fn main() {
+    let args: Vec<String> = std::env::args().collect();
+    if args.get(1).map(|s| s.as_str()) == Some("mkcase") {
+        let c = named_case(&args[2]).expect("unknown case name");
+        println!("{}", serde_json::to_string_pretty(&serde_json::json!({"property": "C18", "check": "witness", "case": c})).unwrap());
+        return;
+    }
+    if args.get(1).map(|s| s.as_str()) == Some("show") {
+        engine::install_panic_hook();
+        show(&args[2]);
+        return;
+    }
+    engine::main::<C18>()
 }
